@@ -698,4 +698,137 @@ theorem blockBroadcast_eq_take_of_sorted {α : Type} (xs : List α) (idxs : List
     simp only [Nat.sub_zero, List.map_cons]
     rw [ih hs.2 (fun j hj => hr j (List.mem_cons_of_mem _ hj))]
 
+/-! ### the relocation onto the event's own true direction is the identity -/
+
+/-- Vincenty's angle: its sine is the length of the numerator vector -/
+theorem sin_vincenty (lon1 lat1 lon2 lat2 : ℝ) :
+    sin (vincenty lon1 lat1 lon2 lat2) =
+      √((cos lat2 * sin (lon2 - lon1)) * (cos lat2 * sin (lon2 - lon1))
+        + (cos lat1 * sin lat2 - sin lat1 * cos lat2 * cos (lon2 - lon1))
+          * (cos lat1 * sin lat2 - sin lat1 * cos lat2 * cos (lon2 - lon1))) := by
+  simp only [vincenty, TranscReal.sin_def, TranscReal.cos_def, TranscReal.sqrt_def, atan2_def]
+  set d := lon2 - lon1
+  set num1 := cos lat2 * sin d
+  set num2 := cos lat1 * sin lat2 - sin lat1 * cos lat2 * cos d
+  set den := sin lat1 * sin lat2 + cos lat1 * cos lat2 * cos d
+  have hsum : num1 * num1 + num2 * num2 + den * den = 1 := by
+    have h1 := sin_sq_add_cos_sq lat1
+    have h2 := sin_sq_add_cos_sq lat2
+    have h3 := sin_sq_add_cos_sq d
+    simp only [num1, num2, den]
+    grind
+  have hnn : 0 ≤ num1 * num1 + num2 * num2 := add_nonneg (mul_self_nonneg _) (mul_self_nonneg _)
+  have hnorm : ‖(⟨den, √(num1 * num1 + num2 * num2)⟩ : ℂ)‖ = 1 := by
+    rw [norm_mk, sq_sqrt hnn]
+    rw [show den ^ 2 + (num1 * num1 + num2 * num2) = 1 by linarith]
+    exact sqrt_one
+  rw [Complex.sin_arg, hnorm]
+  simp
+
+/-- `h·cos(position angle) = x`, `h·sin(position angle) = y` for the numerator vector `(x, y)` of
+the position angle and its length `h` (also when the two points coincide or are antipodal: `h = 0`) -/
+theorem norm_mul_cos_sin_arg (x y : ℝ) :
+    √(x ^ 2 + y ^ 2) * cos (Complex.arg ⟨x, y⟩) = x ∧ √(x ^ 2 + y ^ 2) * sin (Complex.arg ⟨x, y⟩) = y := by
+  rw [Complex.sin_arg, norm_mk]
+  by_cases h0 : x ^ 2 + y ^ 2 = 0
+  · have hx : x = 0 := by nlinarith [sq_nonneg x, sq_nonneg y]
+    have hy : y = 0 := by nlinarith [sq_nonneg x, sq_nonneg y]
+    subst hx; subst hy; simp
+  · have hpos : 0 < x ^ 2 + y ^ 2 := lt_of_le_of_ne (by positivity) (Ne.symm h0)
+    have hs : √(x ^ 2 + y ^ 2) ≠ 0 := (sqrt_pos.mpr hpos).ne'
+    have hne : (⟨x, y⟩ : ℂ) ≠ 0 := by
+      intro hc
+      have h1 : x = 0 := by simpa using congrArg Complex.re hc
+      have h2 : y = 0 := by simpa using congrArg Complex.im hc
+      apply h0; rw [h1, h2]; ring
+    rw [Complex.cos_arg hne, norm_mk]
+    constructor <;> field_simp
+
+/-- **relocating onto the event's own true direction returns the reconstructed direction**
+(astropy position angle + separation + offset): pins the position angle, not only the separation.
+Needs the true direction outside astropy's polar cap and a canonical reconstructed declination. -/
+theorem relocate_self {eps : ℝ} (tRa tDec rRa rDec : ℝ) (ht : eps ≤ cos tDec) (heps : 0 < eps)
+    (hr : 0 ≤ cos rDec) :
+    unitVec (relocate eps tRa tDec tRa tDec rRa rDec).1 (relocate eps tRa tDec tRa tDec rRa rDec).2
+      = unitVec rRa rDec := by
+  have hS : 0 < cos tDec := lt_of_lt_of_le heps ht
+  -- the ingredients
+  set Δ := rRa - tRa with hΔ
+  set px := sin rDec * cos tDec - cos rDec * sin tDec * cos Δ with hpx
+  set py := sin Δ * cos rDec with hpy
+  set h := √(px ^ 2 + py ^ 2) with hh
+  have hsinV : sin (vincenty tRa tDec rRa rDec) = h := by
+    rw [sin_vincenty, hh]; congr 1; simp only [px, py, Δ]; ring
+  have hcosV : cos (vincenty tRa tDec rRa rDec)
+      = sin tDec * sin rDec + cos tDec * cos rDec * cos Δ := by
+    rw [cos_vincenty, dotRD_eq, ← cos_neg (tRa - rRa), neg_sub]; ring
+  have hPA : cos (posAngle tRa tDec rRa rDec) = cos (Complex.arg ⟨px, py⟩) ∧
+      sin (posAngle tRa tDec rRa rDec) = sin (Complex.arg ⟨px, py⟩) := by
+    simp only [posAngle, TranscReal.sin_def, TranscReal.cos_def, atan2_def, cos_modF_twoPi, sin_modF_twoPi]
+    exact ⟨rfl, rfl⟩
+  obtain ⟨hcB, hsB⟩ := norm_mul_cos_sin_arg px py
+  rw [← hh] at hcB hsB
+  have h1 := sin_sq_add_cos_sq tDec
+  have h2 := sin_sq_add_cos_sq rDec
+  have h3 := sin_sq_add_cos_sq Δ
+  -- cos_b = sin rDec
+  have hcb : offsetCosB tDec (posAngle tRa tDec rRa rDec) (vincenty tRa tDec rRa rDec) = sin rDec := by
+    simp only [offsetCosB, TranscReal.sin_def, TranscReal.cos_def]
+    rw [hsinV, hcosV, hPA.1]
+    have : cos tDec * h * cos (Complex.arg ⟨px, py⟩) = cos tDec * px := by rw [mul_assoc, hcB]
+    rw [this]; simp only [px]
+    linear_combination (sin rDec) * h1
+  have hsr : -1 ≤ sin rDec ∧ sin rDec ≤ 1 := ⟨neg_one_le_sin _, sin_le_one _⟩
+  have hcosasin : cos (arcsin (sin rDec)) = cos rDec := by
+    rw [cos_arcsin, show 1 - sin rDec ^ 2 = cos rDec ^ 2 by linarith, sqrt_sq hr]
+  -- unfold the relocation (regular branch)
+  have hlat : (relocate eps tRa tDec tRa tDec rRa rDec).2 = arcsin (sin rDec) := by
+    show Transc.asin (offsetCosB tDec (posAngle tRa tDec rRa rDec) (vincenty tRa tDec rRa rDec)) = _
+    rw [hcb]; rfl
+  have hlon : (relocate eps tRa tDec tRa tDec rRa rDec).1
+      = modF (tRa + Complex.arg ⟨cos tDec * cos rDec * cos Δ, cos tDec * cos rDec * sin Δ⟩) twoPi := by
+    have hbranch : ¬ (Transc.cos tDec : ℝ) < eps := by simpa using not_lt.mpr ht
+    have hcb' : sin tDec * cos (vincenty tRa tDec rRa rDec)
+        + cos tDec * sin (vincenty tRa tDec rRa rDec) * cos (posAngle tRa tDec rRa rDec) = sin rDec := by
+      have := hcb
+      simpa only [offsetCosB, TranscReal.sin_def, TranscReal.cos_def] using this
+    simp only [relocate, offsetBy, if_neg hbranch, atan2_def, TranscReal.sin_def, TranscReal.cos_def]
+    congr 3
+    refine Complex.ext ?_ ?_
+    · show cos (vincenty tRa tDec rRa rDec) - (sin tDec * cos (vincenty tRa tDec rRa rDec)
+          + cos tDec * sin (vincenty tRa tDec rRa rDec) * cos (posAngle tRa tDec rRa rDec)) * sin tDec
+          = cos tDec * cos rDec * cos Δ
+      rw [hcb', hcosV]; ring
+    · show sin (vincenty tRa tDec rRa rDec) * sin (posAngle tRa tDec rRa rDec) * cos tDec
+          = cos tDec * cos rDec * sin Δ
+      rw [hsinV, hPA.2, hsB]; simp only [py]; ring
+  rw [hlat, hlon]
+  simp only [unitVec, TranscReal.sin_def, TranscReal.cos_def, cos_modF_twoPi, sin_modF_twoPi,
+    sin_arcsin hsr.1 hsr.2, hcosasin]
+  rcases hr.eq_or_lt with h0 | hpos
+  · have hc0 : cos rDec = 0 := h0.symm
+    apply V3.ext' <;> simp [hc0]
+  · have hk : 0 < cos tDec * cos rDec := mul_pos hS hpos
+    have hz : (⟨cos tDec * cos rDec * cos Δ, cos tDec * cos rDec * sin Δ⟩ : ℂ)
+        = ((cos tDec * cos rDec : ℝ) : ℂ) * ⟨cos Δ, sin Δ⟩ := by
+      apply Complex.ext <;> simp
+    have hne : (⟨cos Δ, sin Δ⟩ : ℂ) ≠ 0 := by
+      intro hc
+      have e1 : cos Δ = 0 := by simpa using congrArg Complex.re hc
+      have e2 : sin Δ = 0 := by simpa using congrArg Complex.im hc
+      rw [e1, e2] at h3; norm_num at h3
+    have hn1 : ‖(⟨cos Δ, sin Δ⟩ : ℂ)‖ = 1 := by
+      rw [norm_mk, show cos Δ ^ 2 + sin Δ ^ 2 = 1 by linarith]; exact sqrt_one
+    have hcA : cos (Complex.arg ⟨cos tDec * cos rDec * cos Δ, cos tDec * cos rDec * sin Δ⟩) = cos Δ := by
+      rw [hz, Complex.arg_real_mul _ hk, Complex.cos_arg hne, hn1]; simp
+    have hsA : sin (Complex.arg ⟨cos tDec * cos rDec * cos Δ, cos tDec * cos rDec * sin Δ⟩) = sin Δ := by
+      rw [hz, Complex.arg_real_mul _ hk, Complex.sin_arg, hn1]; simp
+    have hra : rRa = tRa + Δ := by simp only [Δ]; ring
+    apply V3.ext'
+    · show cos (tRa + _) * cos rDec = cos rRa * cos rDec
+      rw [cos_add, hcA, hsA, hra, cos_add]
+    · show sin (tRa + _) * cos rDec = sin rRa * cos rDec
+      rw [sin_add, hcA, hsA, hra, sin_add]
+    · rfl
+
 end Coords
